@@ -9,29 +9,33 @@
 (*            sight (an unlogged variable TLC infers) and never changed:   *)
 (*            the same in every process, at every position, for every      *)
 (*            hash seed, through library, CLI stdout and CLI -o            *)
-(*   cache    per process: the LRU order of problem keys (most recent      *)
-(*            last) and the kernel identity each key maps to               *)
+(*   kkey     (process, kernel identity) -> the problem key it was first   *)
+(*            handed out for, never changed: two requests share a cached   *)
+(*            kernel only if they are the same problem.  WHICH entries a   *)
+(*            cache keeps (LRU of some size, unbounded, none) is not part  *)
+(*            of the property and is not modelled: a lookup may hit or     *)
+(*            miss; a hit must return a kernel handed out before           *)
 (*   result   (request, input) -> digest of the raw result arrays          *)
 (* Events                                                                  *)
 (*   Generated(proc, req, sha) | Cli(proc, req, stdout, file)              *)
 (*   Lookup(proc, key, kernel, hit) | CacheClear(proc)                     *)
 (*   Result(proc, req, input, sha)                                         *)
-(* A problem KEY is <<assignment, <<name, format>> in order, backend>> as  *)
-(* issued by the driver (not as computed by tensora).                      *)
+(* A problem KEY is <<assignment without blanks, sorted <<name, format>>,   *)
+(* backend>> as issued by the driver (not as computed by tensora); a       *)
+(* kernel identity is a serial number the driver attaches to the object    *)
+(* at first sight (never reused, unlike id()).                             *)
 (***************************************************************************)
 EXTENDS Integers, Sequences, FiniteSets, TLC, Json, IOUtils
 
 Trace == JsonDeserialize(IOEnv.VF_TRACE)
-\* capacity of the kernel cache: cache_info().maxsize as reported by the real process (first event of the trace)
-MaxSize == Trace[1].maxsize
 
-VARIABLES l, code, cache, result
-vars == <<l, code, cache, result>>
+VARIABLES l, code, kkey, result
+vars == <<l, code, kkey, result>>
 
 E == Trace[l]
 IsEvent(e) == l <= Len(Trace) /\ Trace[l].ev = e /\ l' = l + 1
 
-Init == l = 2 /\ code = <<>> /\ cache = <<>> /\ result = <<>>
+Init == l = 2 /\ code = <<>> /\ kkey = <<>> /\ result = <<>>
 
 Bind(f, k, v) == IF k \in DOMAIN f THEN f[k] = v ELSE TRUE
 Put(f, k, v) == IF k \in DOMAIN f THEN f ELSE (k :> v) @@ f
@@ -40,42 +44,31 @@ Generated ==
   /\ IsEvent("Generated")
   /\ Bind(code, E.req, E.sha)
   /\ code' = Put(code, E.req, E.sha)
-  /\ UNCHANGED <<cache, result>>
+  /\ UNCHANGED <<kkey, result>>
 
 Cli ==
   /\ IsEvent("Cli")
   /\ Bind(code, E.req, E.stdout) /\ E.file = E.stdout
   /\ code' = Put(code, E.req, E.stdout)
-  /\ UNCHANGED <<cache, result>>
-
-ProcCache(pr) == IF pr \in DOMAIN cache THEN cache[pr] ELSE [order |-> <<>>, kernel |-> <<>>]
-Remove(sq, x) == SelectSeq(sq, LAMBDA y : y # x)
+  /\ UNCHANGED <<kkey, result>>
 
 Lookup ==
   /\ IsEvent("Lookup")
-  /\ LET c == ProcCache(E.proc)
-         present == E.key \in DOMAIN c.kernel IN
-     /\ E.hit = present                                              \* hits and misses exactly as an LRU of MaxSize predicts
-     /\ present => c.kernel[E.key] = E.kernel                        \* a hit returns the kernel compiled for this key
-     /\ ~present => \A k \in DOMAIN c.kernel : c.kernel[k] # E.kernel  \* a fresh kernel is not shared with another problem
-     /\ LET order1 == Append(Remove(c.order, E.key), E.key)
-            evict == Len(order1) > MaxSize
-            order2 == IF evict THEN Tail(order1) ELSE order1
-            kern1 == (E.key :> E.kernel) @@ c.kernel
-            kern2 == IF evict THEN [k \in DOMAIN kern1 \ {Head(order1)} |-> kern1[k]] ELSE kern1
-        IN cache' = (E.proc :> [order |-> order2, kernel |-> kern2]) @@ cache
+  /\ LET kid == <<E.proc, E.kernel>> IN
+     /\ Bind(kkey, kid, E.key)                    \* a kernel is never shared between two problems
+     /\ (E.hit => kid \in DOMAIN kkey)            \* a hit returns a kernel that was handed out before
+     /\ kkey' = Put(kkey, kid, E.key)
   /\ UNCHANGED <<code, result>>
 
 CacheClear ==
   /\ IsEvent("CacheClear")
-  /\ cache' = (E.proc :> [order |-> <<>>, kernel |-> <<>>]) @@ cache
-  /\ UNCHANGED <<code, result>>
+  /\ UNCHANGED <<code, kkey, result>>
 
 Result ==
   /\ IsEvent("Result")
   /\ Bind(result, <<E.req, E.input>>, E.sha)
   /\ result' = Put(result, <<E.req, E.input>>, E.sha)
-  /\ UNCHANGED <<code, cache>>
+  /\ UNCHANGED <<code, kkey>>
 
 Next == Generated \/ Cli \/ Lookup \/ CacheClear \/ Result
 Spec == Init /\ [][Next]_vars
